@@ -10,13 +10,12 @@ TARGETS = ["ovniemu", "ovnidump", "ovnitop", "ovnisort", "emu"]
 LEVEL = "exploration"
 RULE = ("valid traces (model-guided histories over all models, optionally with unsorted regions) with 1-3 "
         "structure-aware mutations of stream.obs (flags nibble, jumbo bit, jumbo size at edge values, truncation at "
-        "any offset incl. page multiples, clock extremes, listed MCVs with shorter/empty/longer payloads, very long string arguments, byte "
+        "any offset incl. page multiples, clock extremes, listed MCVs with shorter/empty/longer payloads, very long string arguments, one argument word set to an extreme or small-index value, the stream ending on a clean boundary with one (mal)formed event or an opened sort region, byte "
         "flips, inserted garbage) and of stream.json (type confusion per key, missing keys, huge/negative/"
         "fractional numbers, deep nesting, long strings, '/' in names, empty arrays, duplicate keys, non-UTF-8, "
         "truncated/empty file, CPU lists in any order with conflicts, malformed mark definitions); each mutant is "
-        "given to ovniemu (-l, -b, -a), ovnidump (plain and -x), ovnitop and ovnisort (sort on a copy, -c, small "
-        "-n), built with ASan+UBSan subset and the exact-size heap buffer hook.  Oracle: exit status 0 or 1, a "
-        "diagnostic when 1, no signal, no sanitizer report, CPU time < 10 s.  Plus 16 libFuzzer instances (half from an "
+        "given to ovniemu (-l, -b, -a, -d), ovnidump (plain and -x), ovnitop and ovnisort (sort on a copy, -c, -n 3, 1, 0), built with ASan+UBSan subset and the exact-size heap buffer hook.  Oracle: exit status 0 or 1, a "
+        "diagnostic when 1, no signal, no sanitizer report, CPU time < 10 s.  An enumerated part gives every listed event code with every payload size (normal and jumbo, as the last event of the stream or not) to 7 tool invocations.  Plus 16 libFuzzer instances (half from an "
         "empty corpus, half seeded with valid streams) on the in-process target fuzz_stream (stream_load/stream_step/"
         "emu_ev/model_event_print with in-target oracle: offset strictly increasing inside the stream, bounded step "
         "count, every declared payload byte readable).  Non-trivial = the mutant still passes "
